@@ -75,7 +75,7 @@ def gen_cases(tier, seed):
                 # a translucent dark colour on a transparent background (RGB_ALPHA, the alpha sample as requested),
                 # incl. translucent black / white
                 kw['dark'] = rng.choice(['#00000080', (0, 0, 0, 64), '#FFFFFFC0', (255, 255, 255, 128), '#0000ff80',
-                                         (12, 200, 7, 1), '#abcd', (0, 0, 0, 254)])
+                                         (12, 200, 7, 1), '#abcd', (0, 0, 0, 254), (0, 0, 0, 1), (255, 255, 255, 1), '#00000001', '#ffffff01'])
                 kw['light'] = None
             elif r < 0.8:
                 kw['dark'] = rnd_color(rng)
